@@ -1425,6 +1425,15 @@ func (x *Exec) mapUpdate(fr *frame, s *State, in *ssa.MapUpdate) {
 func (x *Exec) rangeInit(fr *frame, s *State, in *ssa.Range) {
 	v := x.operand(fr, s, in.X)
 	fr.vals[in] = Value{T: in.Type(), L: v.L}
+	if mt, ok := in.X.Type().Underlying().(*types.Map); ok {
+		if ks := x.E.layout(mt.Key()); len(ks) == 1 {
+			if s.Iter == nil {
+				s.Iter = map[*ssa.Range]Term{}
+			}
+			srt := Sort("(Array " + string(ks[0]) + " Bool)")
+			s.Iter[in] = Term{"((as const " + string(srt) + ") false)", srt}
+		}
+	}
 }
 
 func (x *Exec) next(fr *frame, s *State, in *ssa.Next) {
@@ -1446,6 +1455,17 @@ func (x *Exec) next(fr *frame, s *State, in *ssa.Next) {
 		k := x.freshValue(s, "mk", mt.Key())
 		val, inDom := x.mapLookup(s, coll, k, mt)
 		x.C.Assume(Implies(And(s.Reach, ok), inDom))
+		if seen, tracked := s.Iter[it]; tracked && len(k.L) == 1 {
+			// every key is produced once, and the iteration ends only when every key of the map
+			// has been produced (the map is not modified while it is ranged over: Go leaves the
+			// iteration of entries added meanwhile unspecified)
+			x.C.Assume(Implies(And(s.Reach, ok), Not(Select(seen, k.L[0], SBool))))
+			q := x.C.BoundVar("k", k.L[0].Sort)
+			_, qin := x.mapLookup(s, coll, Value{T: mt.Key(), L: []Term{q}}, mt)
+			x.C.Assume(Implies(And(s.Reach, Not(ok)), Forall([]Term{q}, Implies(qin, Select(seen, q, SBool)))))
+			s.Iter[it] = x.C.Define("iterseen", Ite(ok, Store(seen, k.L[0], True), seen))
+			x.C.Trusted["range over a map produces every key exactly once (the map is not modified during the loop)"] = true
+		}
 		kt, vt := tup.At(1).Type(), tup.At(2).Type()
 		if len(x.E.layout(kt)) > 0 {
 			out.L = append(out.L, k.L...)
